@@ -89,6 +89,10 @@ Proof. exact outfile_denotes. Qed.
 Theorem C11_denote_logformat : forall is_float atoi t, simple t ->
   eff is_float atoi (B"logformat") [t] = ROk ([], ULogformat (t_str t)).
 Proof. exact logformat_denotes. Qed.
+Theorem C11_denote_set : forall is_float atoi es, es <> [] -> Forall eitem_ok es -> Forall simple (etoks es) ->
+  (forall l r, In (l, r) es -> bytes_eqb (lower (t_str l)) (lower (B",")) = false) ->
+  eff is_float atoi (B"set") (etoks es) = ROk ([], USet (map (eitem_den is_float) es)).
+Proof. exact set_denotes. Qed.
 (* the post-checks: no select list is an error; an empty group-by defaults to the first selected field;
    an order-by that is not one of the selected columns is an error *)
 Theorem C11_finish : forall q s0 rest, q_select q = s0 :: rest ->
@@ -101,7 +105,7 @@ Proof. exact finish_no_select. Qed.
 Print Assumptions C11_denote_where.
 
 (* What is still NOT proved of the round trip: the quoting variants (double-quoted operands, back-quoted
-   field names), the set clause with its function stacks and the rejection of malformed families; these are decided by the correspondence check, which renders
+   field names), function calls on the right-hand side of set (md5sum / maskdigits stacks) and the rejection of malformed families; these are decided by the correspondence check, which renders
    random abstract queries in random clause orders, keyword cases, separator styles and quotings, mutates
    them, and compares every parsed field of mapr.NewQuery with this model and an independent denotation. *)
 Example C11_example :
